@@ -464,3 +464,83 @@ pub fn proc_counts() -> (usize, usize) {
     let n = |p: &str| std::fs::read_dir(p).map(|d| d.count()).unwrap_or(0);
     (n("/proc/self/task"), n("/proc/self/fd"))
 }
+
+/// CONNECT proxy that answers 200 and then runs a step script as the TLS origin on the same socket (C13 tunnel route).
+pub fn tunnel_script_server(cert: &'static str, script: Vec<Step>) -> std::io::Result<ScriptServer> {
+    let l = TcpListener::bind("127.0.0.1:0")?;
+    let addr = l.local_addr()?;
+    l.set_nonblocking(true)?;
+    let stop = Arc::new(AtomicBool::new(false));
+    let accepted = Arc::new(AtomicUsize::new(0));
+    let (s2, a2) = (stop.clone(), accepted.clone());
+    let handle = std::thread::spawn(move || {
+        let mut script = Some(script);
+        let mut workers = vec![];
+        while !s2.load(Ordering::Relaxed) {
+            match l.accept() {
+                Ok((mut sock, _)) => {
+                    a2.fetch_add(1, Ordering::Relaxed);
+                    let Some(script) = script.take() else { continue };
+                    let stop = s2.clone();
+                    workers.push(std::thread::spawn(move || {
+                        let _ = sock.set_nonblocking(false);
+                        let _ = sock.set_read_timeout(Some(Duration::from_millis(2000)));
+                        let _ = sock.set_nodelay(true);
+                        let Ok(h) = read_head(&mut sock) else { return };
+                        if !h.starts_with("CONNECT ") || sock.write_all(b"HTTP/1.1 200 Connection established\r\n\r\n").is_err() {
+                            return;
+                        }
+                        let Ok(conn) = ServerConnection::new(server_config(cert)) else { return };
+                        let mut tls = StreamOwned::new(conn, sock);
+                        let nap = |ms: u64, stop: &AtomicBool| {
+                            let t0 = std::time::Instant::now();
+                            while t0.elapsed() < Duration::from_millis(ms) && !stop.load(Ordering::Relaxed) {
+                                std::thread::sleep(Duration::from_millis(2.min(ms.max(1))));
+                            }
+                        };
+                        for step in script {
+                            if stop.load(Ordering::Relaxed) {
+                                break;
+                            }
+                            match step {
+                                Step::ReadRequest => {
+                                    let _ = read_head(&mut tls);
+                                }
+                                Step::Send(b) => {
+                                    if tls.write_all(&b).is_err() || tls.flush().is_err() {
+                                        break;
+                                    }
+                                }
+                                Step::SleepMs(ms) => nap(ms, &stop),
+                                Step::Drip { bytes, every_ms } => {
+                                    for b in bytes {
+                                        if stop.load(Ordering::Relaxed) || tls.write_all(&[b]).is_err() || tls.flush().is_err() {
+                                            break;
+                                        }
+                                        nap(every_ms, &stop);
+                                    }
+                                }
+                                Step::Stall => {
+                                    while !stop.load(Ordering::Relaxed) {
+                                        std::thread::sleep(Duration::from_millis(3));
+                                    }
+                                }
+                                Step::Close => {
+                                    tls.conn.send_close_notify();
+                                    let _ = tls.flush();
+                                    break;
+                                }
+                            }
+                        }
+                        let _ = tls.sock.shutdown(std::net::Shutdown::Both);
+                    }));
+                }
+                Err(_) => std::thread::sleep(Duration::from_millis(1)),
+            }
+        }
+        for w in workers {
+            let _ = w.join();
+        }
+    });
+    Ok(ScriptServer { addr, accepted, stop, handle: Some(handle) })
+}
